@@ -34,7 +34,7 @@ REACH = [
 ]
 PLAN = {
     "quick": {"shards": 4, "cases": 1200, "timeout_s": 900, "min_evaluations": 4000,
-              "min_counters": {"child_results_compared": 32000, "application_orders_recorded": 32000, "empty_results_checked": 400,
+              "min_counters": {"child_results_compared": 32000, "application_orders_recorded": 24000, "empty_results_checked": 400,
                                "concurrent_cleanings_compared": 2000}},
     "thorough": {"shards": 16, "cases": 1600, "timeout_s": 3300, "min_evaluations": 9000,
                  "min_counters": {"child_results_compared": 400000}},
@@ -89,6 +89,17 @@ def gen_case(rng, tier, idx):
     via_file = rng.random() < 0.4
     case = {"cfg": cfg, "lines": lines, "via_file": via_file, "no_obfuscate": rng.sample(["hostname", "ip", "keyword", "mac", "password"], rng.choice([0, 0, 0, 1, 2])),
             "no_redact": rng.random() < 0.1}
+    if rng.random() < 0.06 and cfg["obfuscate"]:
+        # the width-preserving path (netstat_-neopa) with one line the obfuscator cannot handle (an address as the very last
+        # thing on the line): the spec is refused as a whole - an exception - or comes out intact, never half-way
+        pad = " " * 16
+        wl = []
+        for i in range(rng.randint(3, 9)):
+            wl.append("~~%d~%d~~%stcp%s%s:22%s%s:4444%sESTABLISHED" % (base, 100 + i, pad, pad, rng.choice(["8.8.8.8", "192.168.100.200", "10.9.8.7"]), pad,
+                                                                   rng.choice(["1.2.3.4", "172.16.254.123"]), pad))
+        bad = rng.randrange(len(wl))
+        wl[bad] = "~~%d~%d~~%sudp%s%s" % (base, 100 + bad, pad, pad, rng.choice(["8.8.8.8", "1.2.3.4", "172.16.254.123"]))
+        return {"cfg": cfg, "lines": wl, "via_file": False, "no_obfuscate": [], "no_redact": False, "width": True}
     if rng.random() < 0.08:
         # nothing at all is active for this spec: every obfuscator opted out, no exclusion pattern, no keyword
         case["no_obfuscate"] = ["hostname", "ip", "ipv6", "mac", "password"] + (["keyword"] if rng.random() < 0.6 else [])
@@ -145,9 +156,11 @@ def child_main(path):
                 kw = {}
                 if c.get("allowlist") is not None:
                     kw["allowlist"] = shared_allowlist = dict(c["allowlist"])
+                if c.get("width"):
+                    kw["width"] = True
                 r = cleaner.clean_content(list(c["lines"]), no_obfuscate=list(c["no_obfuscate"]), no_redact=c["no_redact"], **kw)
                 res["out"] = r
-                if kw:
+                if "allowlist" in kw:
                     # same content, same configuration (the very same allow-list object), fresh cleaner
                     seq_first = list(order)
                     r2 = T.make_cleaner(c["cfg"]).clean_content(list(c["lines"]), no_obfuscate=list(c["no_obfuscate"]), no_redact=c["no_redact"], **kw)
@@ -314,7 +327,9 @@ def run_shard(ctx):
                         "lines": c["lines"][:4], "cleaned_lines": exp_stored[:4] if isinstance(exp_stored, list) else exp_stored,
                         "stored": ref["stored"][:6] if isinstance(ref["stored"], list) else ref["stored"],
                         "counts": [len(c["lines"]), len(exp_stored) if isinstance(exp_stored, list) else None, len(ref["stored"]) if isinstance(ref["stored"], list) else None]})
-        if isinstance(out, str):
+        if isinstance(out, str) and c.get("width") and "SubIPError" in out:
+            ctx.count("specs_refused_as_a_whole_by_the_width_preserving_path")
+        elif isinstance(out, str):
             ctx.violation("clean-content-raised", {"error": out[:400]})
         else:
             tags_in = [T.tag_of(l) for l in c["lines"]]
@@ -378,7 +393,7 @@ def gen_concurrent(rng):
     return {"kind": "concurrent", "cfg": cfg, "jobs": jobs, "workers": rng.choice([2, 4, 8]), "repeat": rng.randint(2, 4)}
 
 
-def run_concurrent(spec, ctx):
+def run_concurrent(spec, ctx, mechanism="output-differs-when-other-threads-use-the-same-cleaner"):
     """same content + same configuration = same output, also while other threads clean other specs with the same Cleaner"""
     import time
     from concurrent.futures import ThreadPoolExecutor
@@ -417,7 +432,7 @@ def run_concurrent(spec, ctx):
             diff = None
             if isinstance(got, list) and isinstance(expected[n], list):
                 diff = {"only_alone": [l for l in expected[n] if l not in got][:3], "only_concurrent": [l for l in got if l not in expected[n]][:3]}
-            ctx.violation("output-differs-when-other-threads-use-the-same-cleaner", {"job": dict(spec["jobs"][n], lines=spec["jobs"][n]["lines"][:3]),
+            ctx.violation(mechanism, {"job": dict(spec["jobs"][n], lines=spec["jobs"][n]["lines"][:3]),
                                                                                       "difference": diff or [str(expected[n])[:200], str(got)[:200]],
                                                                                       "workers": spec["workers"]})
             break
